@@ -18,7 +18,9 @@ META = {
         "2 (quick) / 3 (thorough) messages of one task are processed concurrently (A=3); the task takes Context itself, "
         "an async gated dependency (the suspension point) and a probe dependency from the family {sync fn, async fn "
         "(gated), generator, async generator} x {cached, use_cache=False} x {reads Context itself, has a nested child of "
-        "any of those 8 kinds that reads Context} (72 graphs, both parameter orders); all orderings of delivery, "
+        "any of those 8 kinds that reads Context} (72 graphs, both parameter orders), plus 32 graphs in which "
+        "broker.dependency_overrides replaces the declared probe at run time (by a function with a child of each kind, "
+        "or by an un-cached async generator); all orderings of delivery, "
         "dependency, body gates (level 0, level 1 for the single-probe graphs). Oracle at every observation: the task_id, "
         "args and labels a dependency or the task function reads from Context are those of the message being processed by "
         "the callback task that runs it; set_result(id, r) carries the value produced for the message with that id. "
@@ -94,6 +96,18 @@ def graphs() -> List[Dict[str, Any]]:
             out.append({"roots": list(order), "task_ctx": True, "single": False,
                         "nodes": {"g": {"style": "aplain", "children": [], "gate": True, "cache": True},
                                   "p": _node(k, ["q"], False), "q": _node(kc, [], True)}})
+    # broker.dependency_overrides: the declared probe is a plain cached function that does not touch
+    # Context; its replacement brings in a child of each of the 8 kinds that reads Context
+    for order in (("g", "p"), ("p", "g")):
+        for kc in KINDS:
+            out.append({"roots": list(order), "task_ctx": True, "single": True, "overrides": {"p": "p2"},
+                        "nodes": {"g": {"style": "aplain", "children": [], "gate": True, "cache": True},
+                                  "p": _node(("plain", True), [], False),
+                                  "p2": _node(("plain", True), ["q"], False), "q": _node(kc, [], True)}})
+        for k in KINDS:
+            out.append({"roots": list(order), "task_ctx": True, "single": False, "overrides": {"p": "p2"},
+                        "nodes": {"g": {"style": "aplain", "children": [], "gate": True, "cache": True},
+                                  "p": _node(k, [], True), "p2": _node(("agen", False), [], True)}})
     return out
 
 
